@@ -139,6 +139,24 @@ func pitCase(caseID string, seed int64) {
 	}
 	// ---- prefix: node lists of every shape, then a random stretch
 	var prefix []*Cmd
+	directed := g.Intn(8)
+	switch directed {
+	case 0:
+		// a meta node with a low id whose TCP address a later CreateDataNode
+		// re-uses: the new data node sorts in FRONT of the existing ones, in a
+		// list that has spare capacity after a removal
+		prefix = append(prefix, mk(TypeCreateMetaNode, CmdCreateMetaNode("hq:8091", "shared:8088", 5), "CreateMetaNode(hq:8091,shared:8088)"))
+		for i := 0; i < 4; i++ {
+			prefix = append(prefix, mk(TypeCreateDataNode, CmdCreateDataNode(fmt.Sprintf("hp%d:8086", i), fmt.Sprintf("dp%d:8088", i)), fmt.Sprintf("CreateDataNode(hp%d:8086,dp%d:8088)", i, i)))
+		}
+		prefix = append(prefix, mk(TypeDeleteDataNode, CmdDeleteDataNode(2), "DeleteDataNode(2)"))
+	case 1:
+		// the mirror image for the meta-node list
+		prefix = append(prefix, mk(TypeCreateDataNode, CmdCreateDataNode("hq:8086", "shared:8088"), "CreateDataNode(hq:8086,shared:8088)"))
+		for i := 0; i < 3; i++ {
+			prefix = append(prefix, mk(TypeCreateMetaNode, CmdCreateMetaNode(fmt.Sprintf("hq%d:8091", i), fmt.Sprintf("mq%d:8089", i), 5), fmt.Sprintf("CreateMetaNode(hq%d:8091,mq%d:8089)", i, i)))
+		}
+	}
 	for i, n := 0, 1+g.Intn(4); i < n; i++ {
 		prefix = append(prefix, mk(TypeCreateDataNode, CmdCreateDataNode(fmt.Sprintf("h%d:8086", i), fmt.Sprintf("d%d:8088", i)), fmt.Sprintf("CreateDataNode(h%d:8086,d%d:8088)", i, i)))
 	}
@@ -157,7 +175,11 @@ func pitCase(caseID string, seed int64) {
 			return
 		}
 	}
-	for i, n := 0, g.Intn(40); i < n; i++ {
+	nRandom := g.Intn(40)
+	if directed < 2 {
+		nRandom = 0 // keep the list capacities the directed prefix arranged
+	}
+	for i := 0; i < nRandom; i++ {
 		c := x.next(f.Data())
 		w.Prefix, w.PHex = append(w.Prefix, c.Desc), append(w.PHex, c.Hex)
 		if _, ok := apply(c); !ok {
@@ -190,6 +212,12 @@ func pitCase(caseID string, seed int64) {
 	runLater := func(afterEach func(pc pitCmd) bool) bool {
 		for i := 0; i < nLater; i++ {
 			c := laterCmd(g, x, f.Data())
+			if i == 1 && directed == 0 {
+				c = mk(TypeCreateDataNode, CmdCreateDataNode("hr:8086", "shared:8088"), "CreateDataNode(hr:8086,shared:8088)")
+			}
+			if i == 1 && directed == 1 {
+				c = mk(TypeCreateMetaNode, CmdCreateMetaNode("hr:8091", "shared:8088", 5), "CreateMetaNode(hr:8091,shared:8088)")
+			}
 			err, ok := apply(c)
 			if !ok {
 				return false
@@ -203,7 +231,15 @@ func pitCase(caseID string, seed int64) {
 		return true
 	}
 	persisted := make([][]byte, nSnap)
-	attributed := false
+	// mutations of the object that was published when the snapshot was taken,
+	// by the later command that made them. They are only evidence: whether the
+	// SNAPSHOT was affected is decided by what it restores to.
+	type mutation struct {
+		sec, what, desc, la, lb string
+		rejected                bool
+		nLater                  int
+	}
+	var muts []mutation
 	if !concurrent {
 		prev := X
 		ok := runLater(func(pc pitCmd) bool {
@@ -211,18 +247,13 @@ func pitCase(caseID string, seed int64) {
 			if cur != prev {
 				sec, la, lb := diffSection(prev, cur)
 				what := pc.c.TypeName()
-				if pc.rejected {
-					what = "rejected-command"
+				if sec == "term-index" {
+					// the command published no new object (rejected, or a legacy
+					// no-op) and Apply stamped Term/Index on the old one
+					what = "command-without-new-object"
 				}
-				w.Later, w.LHex = nil, nil
-				for _, l := range later {
-					w.Later, w.LHex = append(w.Later, l.c.Desc), append(w.LHex, l.c.Hex)
-				}
-				w.Culprt = pc.c.Desc
-				r.Violation("C07/snapshot-sees-later-change/"+sec+"/"+what, caseID,
-					fmt.Sprintf("the metadata object handed out by Snapshot() changed when %s was applied afterwards (rejected=%v): %q became %q", pc.c.Desc, pc.rejected, la, lb), *w)
-				r.Count("b_snapshot_object_mutations_observed", 1)
-				attributed = true
+				muts = append(muts, mutation{sec, what, pc.c.Desc, la, lb, pc.rejected, len(later)})
+				r.Count("b_published_object_changed_in_place_after_snapshot", 1)
 				prev = cur
 			}
 			return true
@@ -289,16 +320,46 @@ func pitCase(caseID string, seed int64) {
 			continue
 		}
 		bad = true
-		if attributed {
-			break // reported above with the culprit
+		// every section in which the restored value differs from X
+		secs := map[string][2]string{}
+		inY := map[string]bool{}
+		for _, l := range strings.Split(Y, "\n") {
+			inY[l] = true
 		}
-		sec, la, lb := diffSection(X, Y)
-		how := "concurrent-persist"
-		if !concurrent {
-			how = "unattributed"
+		inX := map[string]bool{}
+		for _, l := range strings.Split(X, "\n") {
+			inX[l] = true
+			if !inY[l] {
+				if _, ok := secs[sectionOf(l)]; !ok {
+					secs[sectionOf(l)] = [2]string{l, ""}
+				}
+			}
 		}
-		r.Violation("C07/snapshot-sees-later-change/"+sec+"/"+how, caseID,
-			fmt.Sprintf("snapshot taken at state X restored to a different state (%s, %d later commands): %q became %q", w.Mode, len(later), la, lb), *w)
+		for _, l := range strings.Split(Y, "\n") {
+			if !inX[l] {
+				v := secs[sectionOf(l)]
+				if v[1] == "" {
+					v[1] = l
+					secs[sectionOf(l)] = v
+				}
+			}
+		}
+		for sec, ll := range secs {
+			how := "concurrent-persist"
+			what := fmt.Sprintf("snapshot taken at state X restored to a different state (%s, %d later commands): %q became %q", w.Mode, len(later), ll[0], ll[1])
+			if !concurrent {
+				how = "unattributed"
+				for _, m := range muts {
+					if m.sec == sec {
+						how = m.what
+						w.Culprt = m.desc
+						what = fmt.Sprintf("a snapshot taken BEFORE %s was applied (rejected=%v) restores to a state that contains the command's effect: %q became %q", m.desc, m.rejected, m.la, m.lb)
+						break
+					}
+				}
+			}
+			r.Violation("C07/snapshot-sees-later-change/"+sec+"/"+how, caseID, what, *w)
+		}
 		break
 	}
 	r.Count("b_cases_"+w.Mode, 1)
